@@ -259,6 +259,7 @@ type violation struct {
 	model  string
 	replay string
 	confirmed bool
+	test   *replayTest
 }
 
 func (r *checkRun) decide(noEvidence bool, evidenceOut string) int {
@@ -379,11 +380,16 @@ func (r *checkRun) decide(noEvidence bool, evidenceOut string) int {
 	}
 	// 4. report
 	os.MkdirAll(filepath.Join(r.root, "replays"), 0o755)
+	replayCache := map[string]*replayTest{}
 	for i := range realViol {
 		v := &realViol[i]
 		enc := encOf[v.ob]
 		if enc != nil && (v.ob.Verdict == "sat" || v.ob.Verdict == "unknown") {
 			v.model = enc.modelFor(v.ob, 8000)
+		}
+		if rt := r.tryReplay(v, replayCache); rt != nil {
+			v.test = rt
+			v.confirmed = rt.Failed
 		}
 		v.replay = r.writeReplay(v, i)
 		suffix := ""
@@ -502,6 +508,9 @@ func (r *checkRun) writeReplay(v *violation, i int) string {
 		"condition_that_must_hold": v.ob.cond,
 		"solver_output": v.model,
 		"replayed_on_real_code": v.confirmed,
+	}
+	if v.test != nil {
+		rec["replay_test"] = v.test
 	}
 	b, _ := json.MarshalIndent(rec, "", " ")
 	os.WriteFile(p, b, 0o644)
